@@ -84,6 +84,7 @@ type Ctx struct {
 	AllocLimit int64
 	ufAxioms []*smt.Term
 	KnownOK  func(label, class string) bool
+	LoopCut  bool // exceeding the unwinding bound prunes the path (stated cut) instead of failing
 	Trace    bool
 }
 
@@ -472,6 +473,9 @@ func (c *Ctx) loopTick(fr *frame, instr interface{}) {
 		c.res.MaxUnwind = n
 	}
 	if n > c.Unwind {
+		if c.LoopCut {
+			panic(engineAbort{"loopcut", fmt.Sprintf("loop cut after %d iterations (stated outside the claim)", c.Unwind)})
+		}
 		panic(engineAbort{"unwind", fmt.Sprintf("symbolic branch taken more than %d times in one activation (%v)", c.Unwind, instr)})
 	}
 }
